@@ -10,10 +10,13 @@ import (
 	"fmt"
 	"strings"
 	"sync"
+	"sync/atomic"
 	"testing"
 	"testing/synctest"
 	"time"
 
+	"github.com/modelcontextprotocol/go-sdk/internal/jsonrpc2"
+	"github.com/modelcontextprotocol/go-sdk/jsonrpc"
 	"github.com/modelcontextprotocol/go-sdk/mcp"
 	"github.com/modelcontextprotocol/go-sdk/verif/memio"
 	"github.com/modelcontextprotocol/go-sdk/verif/vt"
@@ -23,7 +26,7 @@ import (
 func TestMain(m *testing.M) { vt.Main(m) }
 
 type Step struct {
-	Kind   string `json:"kind"`           // ccall scall nested notify snotify release close wait fail vanish late sleep
+	Kind   string `json:"kind"`           // ccall scall nested notify snotify release close wait fail vanish late sleep rejectnotes
 	Side   string `json:"side,omitempty"` // close/fail/vanish/late: client | server
 	I      int    `json:"i,omitempty"`
 	NoWait bool   `json:"nowait,omitempty"`
@@ -43,7 +46,7 @@ func genScript(rt *rapid.T, race bool) Script {
 	s.Modern = rapid.IntRange(0, 3).Draw(rt, "modern") == 0
 	n := rapid.IntRange(1, 30).Draw(rt, "n")
 	for i := 0; i < n; i++ {
-		st := Step{Kind: rapid.SampledFrom([]string{"ccall", "ccall", "scall", "nested", "notify", "snotify", "release", "release", "close", "close", "wait", "fail", "vanish", "late", "late", "latenotify", "sleep"}).Draw(rt, "kind")}
+		st := Step{Kind: rapid.SampledFrom([]string{"ccall", "ccall", "scall", "nested", "notify", "snotify", "release", "release", "close", "close", "wait", "fail", "vanish", "late", "late", "latenotify", "sleep", "rejectnotes"}).Draw(rt, "kind")}
 		st.Side = rapid.SampledFrom([]string{"client", "server"}).Draw(rt, "side")
 		st.I = rapid.IntRange(0, 7).Draw(rt, "i")
 		if race {
@@ -52,6 +55,35 @@ func genScript(rt *rapid.T, race bool) Script {
 		s.Steps = append(s.Steps, st)
 	}
 	return s
+}
+
+// faultTransport wraps a transport so that, on command, the connection refuses notifications this side
+// writes with a per-message rejection (an error wrapping jsonrpc2.ErrRejected, which by contract does not
+// break the connection): a write failure that can hit, for instance, the notifications/cancelled Close sends
+// for its parked calls.
+type faultTransport struct {
+	inner  mcp.Transport
+	reject *atomic.Bool
+}
+
+func (t *faultTransport) Connect(ctx context.Context) (mcp.Connection, error) {
+	c, err := t.inner.Connect(ctx)
+	if err != nil {
+		return nil, err
+	}
+	return &faultConn{Connection: c, reject: t.reject}, nil
+}
+
+type faultConn struct {
+	mcp.Connection
+	reject *atomic.Bool
+}
+
+func (c *faultConn) Write(ctx context.Context, msg jsonrpc.Message) error {
+	if r, ok := msg.(*jsonrpc.Request); ok && !r.IsCall() && c.reject.Load() {
+		return fmt.Errorf("%w: scripted rejection of notification %s", jsonrpc2.ErrRejected, r.Method)
+	}
+	return c.Connection.Write(ctx, msg)
 }
 
 type handlerRec struct {
@@ -192,7 +224,8 @@ func runInBubble(s Script) (res vt.Result) {
 	a.OnClose = func() { w.mu.Lock(); w.transportClosed["server"] = w.tick(); w.mu.Unlock() }
 	b.OnClose = func() { w.mu.Lock(); w.transportClosed["client"] = w.tick(); w.mu.Unlock() }
 	var err error
-	ss, err = server.Connect(bg, &mcp.IOTransport{Reader: a, Writer: a}, nil)
+	rejectNotes := map[string]*atomic.Bool{"client": new(atomic.Bool), "server": new(atomic.Bool)}
+	ss, err = server.Connect(bg, &faultTransport{inner: &mcp.IOTransport{Reader: a, Writer: a}, reject: rejectNotes["server"]}, nil)
 	if err != nil {
 		res.Failf("harness: %v", err)
 		return
@@ -205,7 +238,7 @@ func runInBubble(s Script) (res vt.Result) {
 		if s.Modern {
 			opts = nil
 		}
-		cs, e = client.Connect(bg, &mcp.IOTransport{Reader: b, Writer: b}, opts)
+		cs, e = client.Connect(bg, &faultTransport{inner: &mcp.IOTransport{Reader: b, Writer: b}, reject: rejectNotes["client"]}, opts)
 		cerr <- e
 	}()
 	synctest.Wait()
@@ -366,6 +399,9 @@ func runInBubble(s Script) (res vt.Result) {
 				})
 			}
 			desc.WriteString("M" + st.Side[:1])
+		case "rejectnotes": // from now on the transport of st.Side refuses the notifications that side writes
+			rejectNotes[st.Side].Store(true)
+			desc.WriteString("R" + st.Side[:1])
 		case "sleep":
 			time.Sleep(time.Duration(10*(st.I+1)) * time.Millisecond)
 			desc.WriteString("z")
@@ -465,7 +501,7 @@ func runInBubble(s Script) (res vt.Result) {
 	}
 	res.NonTrivial = nt
 	d := desc.String()
-	for _, c := range []struct{ sub, class string }{{"Kc", "client_close"}, {"Ks", "server_close"}, {"F", "write_failure"}, {"V", "peer_vanishes"}, {"L", "late_request"}, {"n", "nested_call"}} {
+	for _, c := range []struct{ sub, class string }{{"Kc", "client_close"}, {"Ks", "server_close"}, {"F", "write_failure"}, {"V", "peer_vanishes"}, {"L", "late_request"}, {"n", "nested_call"}, {"R", "notifications_rejected"}} {
 		if strings.Contains(d, c.sub) {
 			res.Class(c.class)
 		}
